@@ -3,10 +3,11 @@ import BpProofs.RtNested
 import BpProofs.RtTime
 import BpProofs.RtWrap
 import BpProofs.RtMap
+import BpProofs.RtTimes
 /-
   C01, the main induction: the round trip for every well-typed message value (`MsgOk`) —
-  flat fields, nested / recursive messages, repeated messages, Timestamp / Duration,
-  wrappers, maps — by strong induction on the nesting fuel of the decoder.
+  flat fields, nested / recursive messages, repeated messages, Timestamp / Duration (singular
+  and repeated), wrappers, maps (scalar, message, Timestamp / Duration values) — by strong induction on the nesting fuel of the decoder.
 -/
 namespace Bp
 open Gen
@@ -48,6 +49,25 @@ theorem slotStep_of_pos (S : Schema) (fuel : Nat) (d : MsgD) (R : FieldD → Val
   · have hpos : 0 < b.length := List.length_pos_iff.mpr hbe
     have hl := hle b hb
     obtain ⟨n, hn⟩ : ∃ n, fuel = n + 1 := ⟨fuel - 1, by omega⟩
+    have := h n hn
+    rw [hn]
+    exact this st b hb
+
+/-- the same for a slot whose decoding nests two loaders deep (a map entry holding a
+    Timestamp / Duration): such a slot emits at least two bytes whenever it emits anything -/
+theorem slotStep_of_pos2 (S : Schema) (fuel : Nat) (d : MsgD) (R : FieldD → Val → Val → Prop) (k : Nat) (f : FieldD)
+    (hid sel : Bool) (v : Val)
+    (h : ∀ n, fuel = n + 2 → SlotStep S (loadInto S (n + 2)) d R k f hid sel v)
+    (hle : ∀ b, dumpSlot S f hid sel v = .ok b → b.length ≤ fuel)
+    (htwo : ∀ b, dumpSlot S f hid sel v = .ok b → b ≠ [] → 2 ≤ b.length) :
+    SlotStep S (loadInto S fuel) d R k f hid sel v := by
+  intro st b hb
+  by_cases hbe : b = []
+  · intro _ _ _ _ _
+    exact ⟨[], .ph, fun _ h => by simp at h, by simp [joinRaw, hbe], fun h => absurd hbe h, by rw [if_pos hbe]; rfl⟩
+  · have hl := hle b hb
+    have h2 := htwo b hb hbe
+    obtain ⟨n, hn⟩ : ∃ n, fuel = n + 2 := ⟨fuel - 2, by omega⟩
     have := h n hn
     rw [hn]
     exact this st b hb
@@ -201,6 +221,9 @@ theorem nested_fuel (S : Schema) : ∀ (fuel : Nat) (c : Nat) (d : MsgD) (sl : L
       | unsetMapM _ _ _ => exact absurd rfl hne
       | mapS _ _ _ hmf _ _ _ _ => have := hmf.grp; rw [hg] at this; simp at this
       | mapM _ _ _ _ hmf _ _ _ _ => have := hmf.grp; rw [hg] at this; simp at this
+      | tss _ _ htf _ => have := htf.grp; rw [hg] at this; simp at this
+      | durs _ _ htf _ => have := htf.grp; rw [hg] at this; simp at this
+      | mapT _ _ _ _ hmf _ _ _ _ => have := hmf.grp; rw [hg] at this; simp at this
     -- every slot is a step for the nested loader with the smaller fuel
     have hsteps : ∀ k f v, d.fields[k]? = some f → sl[k]? = some v →
         SlotStep S (loadInto S fuel) d (fun _ v v' => ValEqv S v v') k f (hidden f k cur) (selectedInGroup f k cur) v := by
@@ -380,6 +403,35 @@ theorem nested_fuel (S : Schema) : ∀ (fuel : Nat) (c : Nat) (d : MsgD) (sl : L
             rw [hs]
             exact slotStep_mapM' S n d k f c' dc false ks vs hdist hf hmf hdc hlenkv hks hinner hkd rfl
           · intro b hb; rw [hs, hb0] at hb; injection hb with hb; subst hb; omega
+      | tss _ xs htf hxs =>
+        have hh : hidden f k cur = false := by unfold hidden; rw [htf.grp]
+        have hs : selectedInGroup f k cur = false := by unfold selectedInGroup; rw [htf.grp]
+        rw [hh] at hb0 ⊢
+        apply slotStep_of_pos
+        · intro n _
+          exact slotStep_times S n d k f false _ xs hdist hf htf hxs hs _ (fun _ v => ValEqv.refl v)
+        · intro b hb; rw [hb0] at hb; injection hb with hb; subst hb; omega
+      | durs _ xs htf hxs =>
+        have hh : hidden f k cur = false := by unfold hidden; rw [htf.grp]
+        have hs : selectedInGroup f k cur = false := by unfold selectedInGroup; rw [htf.grp]
+        rw [hh] at hb0 ⊢
+        apply slotStep_of_pos
+        · intro n _
+          exact slotStep_times S n d k f true _ xs hdist hf htf hxs hs _ (fun _ v => ValEqv.refl v)
+        · intro b hb; rw [hb0] at hb; injection hb with hb; subst hb; omega
+      | mapT _ isDur ks vs hmf hlenkv hks hvs hkd =>
+        have hh : hidden f k cur = false := by unfold hidden; rw [hmf.grp]
+        have hs : selectedInGroup f k cur = false := by unfold selectedInGroup; rw [hmf.grp]
+        rw [hh] at hb0 ⊢
+        apply slotStep_of_pos2
+        · intro n _
+          exact slotStep_mapT S n d k f isDur _ ks vs hdist hf hmf hlenkv hks hvs hkd hs _ (fun _ v => ValEqv.refl v)
+        · intro b hb; rw [hb0] at hb; injection hb with hb; subst hb; omega
+        · intro b hb hne
+          rw [hs, dumpSlot_map S f ks vs hmf.ty hmf.rep hmf.opt hmf.grp] at hb
+          by_cases hke : ks.isEmpty = true
+          · rw [if_pos hke] at hb; injection hb with hb; exact absurd hb.symm hne
+          · rw [if_neg hke] at hb; exact dumpEntries_two S f ks vs b hmf.ty hb hne
     obtain ⟨sl', h1, h2, h3, h4⟩ :=
       fold_of_steps S (loadInto S fuel) c d hd sl ow unk cur _ hshape hunk bs hdump hbl hsteps
     refine ⟨sl', ?_, ?_, h4⟩
